@@ -9,6 +9,11 @@ from . import geom
 from .common import FIELD, MESH, REGION
 
 FLOOR = 60
+ANCHORS = [
+    'region.Region.rotate90',
+    'mesh.Mesh.rotate90',
+    'field.Field.rotate90',
+]   # functions whose code the property is anchored in (mutation analysis, evidence)
 ROT = ["region.Region.rotate90", "mesh.Mesh.rotate90", "field.Field.rotate90"]
 
 
